@@ -2059,6 +2059,10 @@ pub fn features(p: &Prog) -> Vec<String> {
                             if let E::Var(v) = a {
                                 if st_lams.contains(v) {
                                     add("local_stateful_closure_called");
+                                    if n == "sapply" {
+                                        // its result is added to sapply's own `self`: the closure's state shows in dsp's state words
+                                        add("local_stateful_closure_feeds_a_state_cell");
+                                    }
                                 }
                                 if asg_lams.contains(v) {
                                     add("assigning_closure_passed_as_argument");
